@@ -33,6 +33,9 @@ def run(chk):
 
     chk.attempt(r02f, chk)
     chk.attempt(r02g, chk)
+    from .c02b import r02h
+
+    chk.attempt(r02h, chk)
 
 
 def lit_strings(node):
